@@ -15,19 +15,28 @@ package redis
 //@ assumed func rec2db(r *kvs.Record) []byte
 //@   requires r != nil
 //@   requires [C02] freshversion: !in(r.Version, atEntry(issued))
+// decoding: the version of the decoded record comes out of the bytes decoded (verSource)
+//@ spec verSource(v string) ref = uninterpreted
 //@ assumed func db2rec(buf []byte) kvs.Record
+//@   ensures verSource(r0.Version) == arr(buf)
+//@ spec rkeyOf(key string) string = uninterpreted
 //@ assumed func rKey(key string) string
+//@   ensures r0 == rkeyOf(key)
 //@ assumed func rKeys(keys []string) []string
 //@ func checkErr(err error) error
 //@   props C02
-//@   ensures (r0 == nil) == (err == nil)
+//@   ensures (r0 == nil) == (err == nil) && (r0 == err || r0 == errors.ErrNotExist)
 //@ assumed func expiration(eat *time.Time, curT time.Time) time.Duration
 
 //@ func (c *client) Create(ctx context.Context, record kvs.Record) (string, error)
-//@   props C02
+//@   props C02 C03
 //@   requires c != nil && c.rdb != nil
-//@   modifies issued, clock
+//@   modifies issued, clock, redisGets
 //@   ensures r1 == nil ==> !in(r0, old(issued)) && r0 != ""
+// [C03] "Create fails with ErrExist and reports the stored version": the stored record is looked up, and a version
+// reported with ErrExist was decoded from a value read for this record's key
+//@   ensures [C03] existing: r1 == errors.ErrExist ==> redisGets > old(redisGets)
+//@   ensures [C03] existing: r1 == errors.ErrExist && r0 != "" ==> readKey(verSource(r0)) == rkeyOf(record.Key)
 
 //@ func (c *client) Put(ctx context.Context, record kvs.Record) (kvs.Record, error)
 //@   props C02
